@@ -228,6 +228,11 @@ Section Order.
     intros H. apply blocked_by_spec in H. destruct H as (l & m & Hw & _). exists l, m. exact Hw.
   Qed.
 
+  Lemma path_source_waits st t t' : wait_path st t t' -> exists l m, In (t, l, m) (waiting st).
+  Proof.
+    intros H. inversion H as [? ? Hx | ? ? ? Hx _]; subst; eapply blocked_source_waits; exact Hx.
+  Qed.
+
   Lemma path_increases st t t' :
     waiting_functional st -> below_wanted st -> wait_path st t t' ->
     forall l m l' m', In (t, l, m) (waiting st) -> In (t', l', m') (waiting st) -> key l m < key l' m'.
@@ -235,7 +240,7 @@ Section Order.
     intros Hf Hb Hp. induction Hp as [t t' H | t t1 t' H Hp IH]; intros l m l' m' Hw Hw'.
     - eapply hop_increases; eassumption.
     - assert (exists l1 m1, In (t1, l1, m1) (waiting st)) as (l1 & m1 & Hw1).
-      { destruct Hp as [? ? Hx | ? ? ? Hx _]; eapply blocked_source_waits; exact Hx. }
+      { eapply path_source_waits; exact Hp. }
       pose proof (hop_increases _ _ _ _ _ _ _ Hf Hb H Hw Hw1).
       pose proof (IH _ _ _ _ Hw1 Hw'). lia.
   Qed.
@@ -247,7 +252,7 @@ Section Order.
     pose proof (valid_waiting_functional _ Hv n) as Hf.
     pose proof (disciplined_below_wanted _ Hv Hd n) as Hb.
     assert (exists l m, In (t, l, m) (waiting (st_at tr n))) as (l & m & Hw).
-    { destruct Hp as [? ? Hx | ? ? ? Hx _]; eapply blocked_source_waits; exact Hx. }
+    { eapply path_source_waits; exact Hp. }
     pose proof (path_increases _ _ _ Hf Hb Hp _ _ _ _ Hw Hw). lia.
   Qed.
 
@@ -293,4 +298,280 @@ Proof.
   unfold rank_of, rank_bound. induction table as [| [k v] r IH]; cbn [assoc_N fold_right snd].
   - lia.
   - destruct (N.eqb c k); [lia |]. etransitivity; [exact IH | lia].
+Qed.
+
+(* ------------------------------------------------------------------ *)
+(* 2. lockset  =>  happens-before                                      *)
+
+Lemma held_eq_dec (x y : lock * tid * mode) : {x = y} + {x <> y}.
+Proof. repeat decide equality; apply N.eq_dec. Qed.
+
+(* a lock that is held was acquired earlier and has been held ever since *)
+Lemma acquired_since tr : forall b t l m,
+  holds (st_at tr b) t l m ->
+  exists k, k < b /\ nth_error tr k = Some (t, Acq l m) /\
+            forall n, k < n <= b -> holds (st_at tr n) t l m.
+Proof.
+  induction b as [| b IH]; intros t l m Hh.
+  - destruct Hh.
+  - assert (holds (st_at tr b) t l m ->
+            exists k, k < S b /\ nth_error tr k = Some (t, Acq l m) /\
+                      forall n, k < n <= S b -> holds (st_at tr n) t l m) as Hold.
+    { intros Hb. destruct (IH _ _ _ Hb) as (k & Hk & He & Hc). exists k. repeat split; [lia | exact He |].
+      intros n Hn. destruct (Nat.eq_dec n (S b)) as [-> | Hne]; [exact Hh | apply Hc; lia]. }
+    destruct (nth_error tr b) as [[t0 a] |] eqn:E.
+    + rewrite (st_at_S _ _ _ E) in Hh. pose proof Hh as Hh'. rewrite holds_apply in Hh'.
+      destruct a; try (apply Hold; exact Hh').
+      * destruct Hh' as [Heq | Hb]; [| apply Hold; exact Hb].
+        injection Heq as -> -> ->. exists b. repeat split; [lia | exact E |].
+        intros n Hn. assert (n = S b) as -> by lia. rewrite (st_at_S _ _ _ E). exact Hh.
+      * apply Hold. apply Hh'.
+    + rewrite (st_at_past _ _ E) in Hh. apply Hold. exact Hh.
+Qed.
+
+(* a lock that is held at a and not any more at b was released in between *)
+Lemma released_between tr : forall b a t l m,
+  a <= b -> holds (st_at tr a) t l m -> ~ holds (st_at tr b) t l m ->
+  exists k, a <= k < b /\ nth_error tr k = Some (t, Rel l m).
+Proof.
+  induction b as [| b IH]; intros a t l m Hab Ha Hb.
+  - assert (a = 0) as -> by lia. contradiction.
+  - destruct (Nat.eq_dec a (S b)) as [-> | Hne]; [contradiction |].
+    assert (~ holds (st_at tr b) t l m -> exists k, a <= k < S b /\ nth_error tr k = Some (t, Rel l m)) as Hold.
+    { intros Hnb. destruct (IH a t l m ltac:(lia) Ha Hnb) as (k & Hk & He). exists k. split; [lia | exact He]. }
+    destruct (nth_error tr b) as [[t0 a0] |] eqn:E.
+    + rewrite (st_at_S _ _ _ E), holds_apply in Hb.
+      destruct a0; try (apply Hold; exact Hb).
+      * apply Hold. intros H. apply Hb. right. exact H.
+      * destruct (held_eq_dec (l, t, m) (l0, t0, m0)) as [Heq | Hneq].
+        -- injection Heq as -> -> ->. exists b. split; [lia | exact E].
+        -- apply Hold. intros H. apply Hb. split; assumption.
+    + rewrite (st_at_past _ _ E) in Hb. apply Hold. exact Hb.
+Qed.
+
+Lemma conflict_sym m m' : conflict m m' -> conflict m' m.
+Proof. unfold conflict. tauto. Qed.
+
+(* mutual exclusion orders the two critical sections *)
+Lemma ordered_by_lock tr i j t t' l m m' :
+  valid tr -> i < j -> t <> t' ->
+  holds (st_at tr i) t l m -> holds (st_at tr j) t' l m' -> conflict m m' ->
+  exists k k', i <= k /\ k < k' /\ k' < j /\
+     nth_error tr k = Some (t, Rel l m) /\ nth_error tr k' = Some (t', Acq l m').
+Proof.
+  intros Hv Hij Hne Hi Hj Hc.
+  destruct (acquired_since _ _ _ _ _ Hj) as (k' & Hk' & Ek' & Hcont).
+  destruct (Nat.lt_ge_cases k' i) as [Hlt | Hge].
+  - exfalso. apply Hne. destruct (valid_exclusive _ Hv i) as [Hex _].
+    eapply Hex; [exact Hi | apply Hcont; lia | exact Hc].
+  - pose proof (Hv _ _ Ek') as Hen. cbn in Hen. destruct Hen as (_ & Hfree & _).
+    assert (~ holds (st_at tr k') t l m) as Hnot.
+    { intros H. apply (Hfree _ _ H). apply conflict_sym. exact Hc. }
+    destruct (released_between _ _ _ _ _ _ Hge Hi Hnot) as (k & Hk & Ek).
+    exists k, k'. repeat split; try lia; assumption.
+Qed.
+
+Lemma published_since tr o : forall n,
+  In o (published (st_at tr n)) -> exists p t, p < n /\ nth_error tr p = Some (t, Pub o).
+Proof.
+  induction n as [| n IH]; intros H.
+  - destruct H.
+  - assert (In o (published (st_at tr n)) -> exists p t, p < S n /\ nth_error tr p = Some (t, Pub o)) as Hold.
+    { intros Hn. destruct (IH Hn) as (p & t & Hp & E). exists p, t. split; [lia | exact E]. }
+    destruct (nth_error tr n) as [[t0 a] |] eqn:E.
+    + rewrite (st_at_S _ _ _ E) in H. destruct a; cbn [apply published] in H; try (apply Hold; exact H).
+      cbn in H. destruct H as [<- | H]; [| apply Hold; exact H].
+      exists n, t0. split; [lia | exact E].
+    + rewrite (st_at_past _ _ E) in H. apply Hold. exact H.
+Qed.
+
+Theorem protected_ordered tr :
+  valid tr -> pub_protocol tr ->
+  forall i j, conflicting tr i j -> protected tr i j -> hb tr i j.
+Proof.
+  intros Hv (P2 & P3 & P4) i j Hc Hp.
+  destruct Hc as (t & t' & x & w & a & p & s & w' & a' & p' & s' & Hij & Ei & Ej & Hne & _ & _).
+  destruct Hp as [(t0 & t0' & ai & aj & l & m & m' & Ei' & Ej' & Hi & Hj & Hcf) | [(t0 & a0 & Ei' & Hpre) | (t0 & a0 & Ej' & Hpre)]].
+  - rewrite Ei in Ei'. injection Ei' as <- <-. rewrite Ej in Ej'. injection Ej' as <- <-.
+    destruct (ordered_by_lock _ _ _ _ _ _ _ _ Hv Hij Hne Hi Hj Hcf) as (k & k' & Hk & Hkk & Hkj & Ek & Ek').
+    assert (i <> k) as Hik by (intros ->; rewrite Ei in Ek; discriminate).
+    eapply hb_trans; [eapply hb_po with (i := i) (j := k); [lia | exact Ei | exact Ek] |].
+    eapply hb_trans; [eapply hb_lock with (i := k) (j := k'); [lia | exact Ek | exact Ek' | exact Hcf] |].
+    eapply hb_po with (i := k') (j := j); [lia | exact Ek' | exact Ej].
+  - rewrite Ei in Ei'. injection Ei' as <- <-. cbn in Hpre. subst p.
+    destruct (P4 _ _ _ (fst x) Ej eq_refl) as [(k & Hk & Ek) | Hall].
+    + pose proof (Hv _ _ Ek) as Hen. cbn in Hen. destruct Hen as [_ Hpub].
+      destruct (published_since _ _ _ Hpub) as (q & tq & Hq & Eq).
+      assert (i < q) as Hiq.
+      { destruct (Nat.lt_trichotomy q i) as [Hlt | [-> | Hgt]]; [| | exact Hgt].
+        - exfalso. exact (P2 _ _ _ (fst x) Ei eq_refl eq_refl _ tq Hlt Eq).
+        - rewrite Ei in Eq. discriminate. }
+      assert (t = tq) as <- by (eapply (P3 _ _ _ Eq _ _ _ Hiq Ei); reflexivity).
+      eapply hb_trans; [eapply hb_po with (i := i) (j := q); [lia | exact Ei | exact Eq] |].
+      eapply hb_trans; [eapply hb_pub with (i := q) (j := k); [lia | exact Eq | exact Ek] |].
+      eapply hb_po with (i := k) (j := j); [lia | exact Ek | exact Ej].
+    + exfalso. apply Hne. eapply (Hall _ _ _ Hij Ei). reflexivity.
+  - rewrite Ej in Ej'. injection Ej' as <- <-. cbn in Hpre. subst p'.
+    exfalso. destruct (P4 _ _ _ (fst x) Ej eq_refl) as [(k & Hk & Ek) | Hall].
+    + pose proof (Hv _ _ Ek) as Hen. cbn in Hen. destruct Hen as [_ Hpub].
+      destruct (published_since _ _ _ Hpub) as (q & tq & Hq & Eq).
+      exact (P2 _ _ _ (fst x) Ej eq_refl eq_refl q tq ltac:(lia) Eq).
+    + apply Hne. eapply (Hall _ _ _ Hij Ei). reflexivity.
+Qed.
+
+(* the general statement: a trace in which every conflicting pair is protected has no data race *)
+Theorem lockset_race_free tr :
+  valid tr -> pub_protocol tr ->
+  (forall i j, conflicting tr i j -> protected tr i j) ->
+  forall i j, ~ data_race tr i j.
+Proof.
+  intros Hv Hp Hall i j [Hc Hn]. apply Hn. apply protected_ordered; auto.
+Qed.
+
+(* ------------------------------------------------------------------ *)
+(* 3. from the static table                                            *)
+
+Lemma holds_atleast_mode st t l wm :
+  holds_atleast st t l wm -> exists m, holds st t l m /\ (wm = true -> m = MW).
+Proof.
+  intros [H | [-> H]].
+  - exists MW. split; [exact H | reflexivity].
+  - exists MR. split; [exact H | discriminate].
+Qed.
+
+Theorem table_protected T kind tr :
+  table_ok T = true -> conforms T kind tr ->
+  forall i j, conflicting tr i j -> ~ excused_at T tr i j -> protected tr i j.
+Proof.
+  intros Hok Hcf i j Hc Hnex.
+  destruct Hc as (t & t' & x & w & a & p & s & w' & a' & p' & s' & Hij & Ei & Ej & Hne & Hw & Ha).
+  destruct (Hcf _ _ _ _ _ _ _ Ei) as (r1 & In1 & Id1 & F1 & W1 & A1 & P1 & V1 & H1).
+  destruct (Hcf _ _ _ _ _ _ _ Ej) as (r2 & In2 & Id2 & F2 & W2 & A2 & P2 & V2 & H2).
+  unfold table_ok in Hok. rewrite forallb_forall in Hok. specialize (Hok _ In1).
+  rewrite forallb_forall in Hok. specialize (Hok _ In2).
+  apply orb_true_iff in Hok. destruct Hok as [Hcons | Hex].
+  2:{ exfalso. apply Hnex. exists t, t', x, w, a, p, s, w', a', p', s', r1, r2. repeat split; assumption. }
+  unfold pair_consistent in Hcons. rewrite !orb_true_iff in Hcons.
+  destruct Hcons as [[[Hnc | Hp1] | Hp2] | Hg].
+  - exfalso. apply negb_true_iff in Hnc. unfold rows_conflict in Hnc.
+    assert (same_variant r1 r2 = true) as Hsv.
+    { unfold same_variant. destruct (N.eqb (r_variant r1) 0) eqn:E1; [reflexivity |].
+      destruct (N.eqb (r_variant r2) 0) eqn:E2; [reflexivity |]. cbn.
+      apply N.eqb_neq in E1, E2. apply N.eqb_eq. rewrite <- (V1 E1), <- (V2 E2). reflexivity. }
+    rewrite Hsv, F1, F2, N.eqb_refl, W1, W2, A1, A2 in Hnc.
+    destruct w, a, w', a'; cbn in Hnc; try discriminate;
+      destruct Hw as [Hw | Hw], Ha as [Ha | Ha]; discriminate.
+  - right; left. exists t, (Acc x w a p s). split; [exact Ei |]. cbn. congruence.
+  - right; right. exists t', (Acc x w' a' p' s'). split; [exact Ej |]. cbn. congruence.
+  - left. unfold common_guard in Hg. apply existsb_exists in Hg.
+    destruct Hg as ([c wm1] & Hin1 & Hg). cbn [fst snd] in Hg. apply andb_true_iff in Hg.
+    destruct Hg as [Hus Hg]. apply existsb_exists in Hg. destruct Hg as ([c2 wm2] & Hin2 & Hg).
+    cbn [fst snd] in Hg. apply andb_true_iff in Hg. destruct Hg as [Hcc Hm]. apply N.eqb_eq in Hcc. subst c2.
+    rewrite F1 in Hus.
+    destruct (holds_atleast_mode _ _ _ _ (H1 _ _ Hin1 Hus)) as (m & Hm1 & Hm1w).
+    destruct (holds_atleast_mode _ _ _ _ (H2 _ _ Hin2 Hus)) as (m' & Hm2 & Hm2w).
+    exists t, t', (Acc x w a p s), (Acc x w' a' p' s'), (lock_inst T x c), m, m'.
+    repeat split; try assumption.
+    apply orb_true_iff in Hm. destruct Hm as [-> | ->]; [left; auto | right; auto].
+Qed.
+
+Theorem table_race_free T kind tr :
+  table_ok T = true -> valid tr -> pub_protocol tr -> conforms T kind tr ->
+  forall i j, conflicting tr i j -> ~ excused_at T tr i j -> hb tr i j.
+Proof.
+  intros Hok Hv Hp Hcf i j Hc Hnex. apply protected_ordered; auto.
+  eapply table_protected; eassumption.
+Qed.
+
+(* with nothing excused: no data race at all *)
+Lemma strict_no_excuse T : t_excused T = [] -> forall r1 r2, pair_excused T r1 r2 = false.
+Proof. intros H r1 r2. unfold pair_excused. rewrite H. reflexivity. Qed.
+
+Theorem strict_table_race_free T kind tr :
+  table_strictly_ok T = true -> valid tr -> pub_protocol tr -> conforms T kind tr ->
+  forall i j, ~ data_race tr i j.
+Proof.
+  intros Hok Hv Hp Hcf. apply lockset_race_free; [exact Hv | exact Hp |].
+  intros i j Hc.
+  set (T0 := mkTables (t_classes T) (t_fields T) (t_rows T) []).
+  assert (table_ok T0 = true) as Hok0.
+  { unfold table_ok, table_strictly_ok in *. cbn [t_rows T0]. rewrite forallb_forall in *.
+    intros r1 In1. specialize (Hok _ In1). rewrite forallb_forall in *. intros r2 In2.
+    specialize (Hok _ In2). unfold pair_consistent in *. cbn [t_classes t_fields T0] in *.
+    apply orb_true_iff. left. exact Hok. }
+  apply (table_protected T0 kind tr Hok0); [exact Hcf | exact Hc |].
+  intros (t & t' & x & w & a & p & s & w' & a' & p' & s' & r1 & r2 & _ & _ & _ & _ & _ & _ & Hex).
+  unfold pair_excused in Hex. cbn in Hex. discriminate.
+Qed.
+
+(* ------------------------------------------------------------------ *)
+(* a waiting thread that nobody blocks can be granted its lock         *)
+
+Lemma unblocked_enabled rank st t l m :
+  below_wanted rank st -> In (t, l, m) (waiting st) -> blockers st t = [] -> enabled st (t, Acq l m).
+Proof.
+  intros Hb Hw Hnb. cbn. repeat split.
+  - exact Hw.
+  - intros t' m' Hh Hc.
+    assert (blocked_by st t t') as H.
+    { apply blocked_by_spec. exists l, m. split; [exact Hw |]. left. exists m'. split; assumption. }
+    unfold blocked_by in H. rewrite Hnb in H. destruct H.
+  - intros [m' Hh]. specialize (Hb _ _ _ Hw _ _ Hh). lia.
+Qed.
+
+(* ------------------------------------------------------------------ *)
+(* the boolean validity check is sound                                 *)
+
+Lemma waitsb_false st t : waitsb st t = false -> ~ is_waiting st t.
+Proof.
+  intros H (l & m & Hin). unfold waitsb in H.
+  assert (existsb (fun w : tid * lock * mode => N.eqb (fst (fst w)) t) (waiting st) = true) as Ht.
+  { apply existsb_exists. exists (t, l, m). split; [exact Hin | cbn; apply N.eqb_refl]. }
+  congruence.
+Qed.
+
+Lemma enabledb_sound st e : enabledb st e = true -> enabled st e.
+Proof.
+  destruct e as [t a]. destruct a; cbn [enabledb enabled]; intros H.
+  - apply negb_true_iff in H. apply waitsb_false. exact H.
+  - rewrite !andb_true_iff in H. destruct H as [[H1 H2] H3]. repeat split.
+    + apply existsb_exists in H1. destruct H1 as ([[t0 l0] m0] & Hin & Hb). cbn [fst snd] in Hb.
+      rewrite !andb_true_iff in Hb. destruct Hb as [[E1 E2] E3].
+      apply N.eqb_eq in E1. apply lock_eqb_eq in E2. apply mode_eqb_eq in E3. subst. exact Hin.
+    + intros t' m' Hh Hc. rewrite forallb_forall in H2. specialize (H2 _ Hh). cbn [fst snd] in H2.
+      rewrite lock_eqb_refl in H2. cbn in H2. apply negb_true_iff in H2.
+      apply conflictb_spec in Hc. congruence.
+    + intros [m' Hh]. apply negb_true_iff in H3.
+      assert (existsb (fun h : lock * tid * mode => lock_eqb (fst (fst h)) l && N.eqb (snd (fst h)) t) (held st) = true) as Ht.
+      { apply existsb_exists. exists (l, t, m'). split; [exact Hh |]. cbn [fst snd]. rewrite lock_eqb_refl, N.eqb_refl. reflexivity. }
+      congruence.
+  - rewrite andb_true_iff in H. destruct H as [H1 H2]. split.
+    + apply negb_true_iff in H1. apply waitsb_false. exact H1.
+    + apply existsb_exists in H2. destruct H2 as ([[l0 t0] m0] & Hin & Hb). cbn [fst snd] in Hb.
+      rewrite !andb_true_iff in Hb. destruct Hb as [[E1 E2] E3].
+      apply N.eqb_eq in E2. apply lock_eqb_eq in E1. apply mode_eqb_eq in E3. subst. exact Hin.
+  - apply negb_true_iff in H. apply waitsb_false. exact H.
+  - apply negb_true_iff in H. apply waitsb_false. exact H.
+  - rewrite andb_true_iff in H. destruct H as [H1 H2]. split.
+    + apply negb_true_iff in H1. apply waitsb_false. exact H1.
+    + apply memN_In. exact H2.
+Qed.
+
+Lemma validb_from_sound : forall rest pre,
+  validb_from (run pre) rest = true ->
+  forall n e, nth_error rest n = Some e -> enabled (run (pre ++ firstn n rest)) e.
+Proof.
+  induction rest as [| e0 r IH]; intros pre Hv n e Hn.
+  - destruct n; discriminate.
+  - cbn [validb_from] in Hv. apply andb_true_iff in Hv. destruct Hv as [He Hr].
+    destruct n as [| n].
+    + cbn in Hn. injection Hn as <-. cbn [firstn]. rewrite app_nil_r. apply enabledb_sound. exact He.
+    + cbn in Hn. cbn [firstn].
+      replace (pre ++ e0 :: firstn n r) with ((pre ++ [e0]) ++ firstn n r) by (rewrite <- app_assoc; reflexivity).
+      apply IH; [| exact Hn]. unfold run in *. rewrite fold_left_app. exact Hr.
+Qed.
+
+Theorem validb_sound tr : validb tr = true -> valid tr.
+Proof.
+  intros H n e Hn. unfold st_at. apply (validb_from_sound tr [] H n e Hn).
 Qed.
